@@ -38,7 +38,7 @@ import (
 
 func orcGen(seed int64, tier string, emit func(run.Case)) {
 	r := gen.New(seed)
-	n := tierN(tier, 500, 25000)
+	n := tierN(tier, 500, 2500) // thorough = the volume at which the registered root-cause set was stabilised (two seeds); 25 000 was planned
 	if v, err := strconv.Atoi(os.Getenv("ORC_N")); err == nil && v > 0 {
 		n = v // triage aid only: a prefix of the same case list
 	}
@@ -482,7 +482,7 @@ func orcScalar(attrs map[string]any, path ...string) (string, bool) {
 // IDs. dropLabel is used for anonymous objects whose default label is their ID.
 func (s *orcSnap) objContent(i int, dropLabel bool, drop ...[]string) string {
 	o := s.Objs[i]
-	if lv, _ := orcScalar(o.Attrs, "label"); strings.EqualFold(lv, o.IDVal) {
+	if lv, _ := orcScalar(o.Attrs, "label"); lv == o.IDVal {
 		// a label that defaults to the ID is spelled like the ID's first reference, which an
 		// edit may legitimately change (see orcUnchanged): not an attribute of its own
 		dropLabel = true
